@@ -17,10 +17,10 @@ RULES = {
           "validated > 0 by set_size)",
     "R2": "unit conversions are inverse pairs and siblings agree: in every concrete _pixels_cols/_pixels_lines the pixels branch divides by the unit "
           "the other branch multiplies by, cols uses axis 0 and lines axis 1 of the same cell-size source, and _get_render_size multiplies "
-          "rendered_size by the same pair",
+          "rendered_size by the same pair; one rounding per derived dimension: a helper whose result a caller scales and rounds returns the unrounded value",
     "R3": "a dynamic size is re-evaluated on every access and restored after rendering: rendered_size/width/height call _valid_size directly for a "
           "Size member; no result of _valid_size is stored anywhere but into `_size` (by set_size / UrwidImage.render); `_size` has no other writer; "
-          "_renderer restores a dynamic size in finally; shared with C09.R5: a frame cached by ImageIterator is keyed by and re-validated against hash(image.rendered_size)",
+          "_renderer restores a dynamic size in finally; shared with C09.R5: a frame cached by ImageIterator is keyed by and re-validated against hash(image.rendered_size); every non-raising path of the size setter / set_size stores `_size` (must-pass-through)",
     "R4": "mode dispatch is exhaustive: _valid_size refers to every member of Size (FIT being the fall-through)",
     "R5": "sibling agreement inside _valid_size: AUTO's fits-the-frame test compares exactly the pixel width/height that ORIGINAL returns; the two FIT "
           "branches are mirror images under width<->height (with * and / of the pixel ratio exchanged)",
